@@ -1,5 +1,5 @@
 ENGINES = [
-    {"name": "pyvc", "path": "/verif/pyvc", "serves_properties": ["C02", "C04"],
+    {"name": "pyvc", "path": "/verif/pyvc", "serves_properties": ["C02", "C04", "C09"],
      "kind_free_text": "own verification-condition generator: symbolic execution of the AST of the real functions (re-read from /repo on every run) against sidecar contracts, discharged with z3; bounded run-time contract checking of the real functions as labelled stand-in"},
 ]
 NOTES = ("Contract-based deductive verification with an own VC generator (PyVC) over the real source; see DESIGN.md. "
@@ -15,5 +15,10 @@ CHECKS.append(
      "text": "Mapper.__call__/rec_fallback/map_foreign proved against the dispatch rule for every built-in node class (real MRO, symbolic handler set, symbolic extra arguments) and for foreign objects; every IdentityMapper, CombineMapper and WalkMapper map_<K> proved against the identity / combine-all-children / visit-children-post contracts stated over the annotation-derived children of K with a ghost event log; instrumented real mappers, fixture hierarchies x handler subsets and handler-name derivation run as bounded cross-check",
      "note": "abstract callbacks (visit, post_visit, combine, handlers) are uninterpreted; closed world of node classes; M-IND; handler-name regex, numpy/multivector branches and user hierarchies are bounded only; known finding C04-identity-cse-zero excluded as a named region",
      "technique": "deductive: per-method VCs from the real AST vs. contract (ghost event log, Map/Fold lifting), z3; bounded run-time contract check as stand-in"})
+CHECKS.append(
+    {"id": "C09", "category": "proof",
+     "text": "every DependencyMapper.map_<K> proved equal to one unfolding of the specification Deps (written from the property statement) for symbolic boolean flags x the three include_calls settings, with and without a pre-filled CSE cache (cache invariant + frame); every FlopCounterBase.map_<K> proved equal to the independent flop count; NodeCountMapper.post_visit, get_num_nodes, CSEAwareFlopCounter.map_common_subexpression proved with old-state postconditions; bounded run over all 28 flag settings, cached/uncached, fresh/reused instances",
+     "note": "sets as z3 sets over object identity; M-IND; dispatcher (C04) and cache (C05) contracts assumed for the cached variants; get_num_nodes uses an assumed contract for the walk over the whole tree; the relevance lemma (evaluation needs no other variable) is bounded only",
+     "technique": "deductive: per-method VCs from the real AST vs. executable specification, z3 (sets, ints); bounded run-time contract check as stand-in"})
 _PENDING = "check not built yet in this session (planned per DESIGN.md section 5); not claimed until its check exists"
 NOT_APPLICABLE = [{"property_id": f"C{i:02d}", "reason": _PENDING} for i in range(1, 21) if f"C{i:02d}" not in {c["id"] for c in CHECKS}]
